@@ -68,6 +68,11 @@ OverwriteUnit ==
 OverwriteAssociative ==
   Ready => Overwrite(L[1], Overwrite(L[2], L[3])) = Overwrite(Overwrite(L[1], L[2]), L[3])
 WellFormed == Ready => IsOptions(E)
+\* expected to FAIL (Options_v_outer): "the outermost level that sets a field
+\* wins" is a different rule - shows the checks above are not vacuous
+OutermostWins ==
+  Ready => LET S == {i \in 1..Len(L) : IsSet(L[i][f])}
+           IN S # {} => E[f] = L[CHOOSE i \in S : \A j \in S : j <= i][f]
 
 \* ------------------------------------------------------------ thread counts
 TVals == {0, 1, 2, 4}
